@@ -7,7 +7,7 @@
    2. The reader's escape table agrees with the ECHAR production.
    3. Sanity of the strict reader and of the reader model on the W3C corner cases. *)
 From Coq Require Import Lia.
-From RV Require Import Grammar.Model Grammar.Reader.
+From RV Require Import Grammar.Model Grammar.Proofs Grammar.Reader.
 Local Open Scope N_scope.
 
 Lemma nt_uriref_src_pinned : nt_uriref_src =
@@ -73,15 +73,553 @@ Proof.
 Qed.
 
 (* W3C corner cases, both readers (vm_compute on concrete lines) *)
-(* <a:s><a:p><a:o>.  - legal; rdflib's N-Triples reader rejects it (finding C05e), its N-Quads reader accepts *)
+(* <a:s><a:p><a:o>.  - legal, no white space at all: read by both readers (N-Triples since 4cbe7459) *)
 Example minimal_whitespace :
   let l := [60;97;58;115;62;60;97;58;112;62;60;97;58;111;62;46] in
   strict_doc false l = Some [((Iri [97;58;115], Iri [97;58;112], Iri [97;58;111]), None)]
-  /\ rd_doc false l = None
-  /\ rd_doc true l = Some [((Iri [97;58;115], Iri [97;58;112], Iri [97;58;111]), None)]
-  /\ rd_kf {| r_nq := false; r_doc := l; r_legal := true; r_meaning := None |} = 5.
+  /\ rd_doc false l = strict_doc false l
+  /\ rd_doc true l = strict_doc false l
+  /\ rd_kf {| r_nq := false; r_doc := l; r_legal := true; r_meaning := None |} = 0.
+Proof. vm_compute. repeat split; reflexivity. Qed.
+(* _:é <a:p> <a:o> .  - legal; rejected by rdflib's readers (finding C05f) *)
+Example non_ascii_label :
+  let l := [95;58;233;32;60;97;58;112;62;32;60;97;58;111;62;32;46] in
+  strict_doc false l = Some [((Bn [233], Iri [97;58;112], Iri [97;58;111]), None)]
+  /\ rd_doc false l = None /\ rd_doc true l = None
+  /\ rd_kf {| r_nq := false; r_doc := l; r_legal := true; r_meaning := None |} = 6.
 Proof. vm_compute. repeat split; reflexivity. Qed.
 (* <s> <a:p> <a:o> .  - relative IRI: not legal *)
 Example relative_iri_rejected :
   strict_doc false [60;115;62;32;60;97;58;112;62;32;60;97;58;111;62;32;46] = None.
 Proof. vm_compute. reflexivity. Qed.
+
+(* ====================================================================== completeness of the line reader
+   Every statement the strict W3C reader accepts is read by rdflib's reader (as repaired by 4cbe7459) with the same
+   meaning, outside the regions of findings C05f (non-ASCII blank node label), C05g (raw Unicode white space in an
+   IRIREF) and C05h (no colon written as such in an IRIREF). *)
+
+(* ---- boolean comparisons to Prop *)
+Ltac b2p :=
+  repeat match goal with
+  | H : (_ <=? _) = true |- _ => apply N.leb_le in H
+  | H : (_ <=? _) = false |- _ => apply N.leb_gt in H
+  | H : (_ <? _) = true |- _ => apply N.ltb_lt in H
+  | H : (_ <? _) = false |- _ => apply N.ltb_ge in H
+  | H : (_ =? _) = true |- _ => apply N.eqb_eq in H
+  | H : (_ =? _) = false |- _ => apply N.eqb_neq in H
+  | H : (_ && _) = true |- _ => apply andb_true_iff in H; destruct H
+  | H : (_ || _) = false |- _ => apply orb_false_iff in H; destruct H
+  | H : negb _ = true |- _ => apply negb_true_iff in H
+  | H : negb _ = false |- _ => apply negb_false_iff in H
+  end.
+
+Lemma eqb_false : forall a b, a <> b -> (a =? b) = false.
+Proof. intros. apply N.eqb_neq. assumption. Qed.
+
+(* ---- lists *)
+Lemma span_spec : forall p l a b, span p l = (a, b) ->
+  l = a ++ b /\ forallb p a = true /\ match b with x :: _ => p x = false | [] => True end.
+Proof.
+  induction l as [|c l IH]; intros a b H; simpl in H.
+  - inversion H; subst. repeat split.
+  - destruct (p c) eqn:Hc.
+    + destruct (span p l) as [a' b'] eqn:E. inversion H; subst.
+      destruct (IH a' b eq_refl) as [H1 [H2 H3]]. subst l. repeat split; [simpl; rewrite Hc, H2; reflexivity|exact H3].
+    + inversion H; subst. repeat split. exact Hc.
+Qed.
+
+Lemma span_app2' : forall p a b, forallb p a = true ->
+  match b with x :: _ => p x = false | [] => True end -> span p (a ++ b) = (a, b).
+Proof.
+  induction a as [|c a IH]; simpl; intros b Ha Hb.
+  - destruct b as [|x b]; [reflexivity|]. simpl. rewrite Hb. reflexivity.
+  - apply andb_true_iff in Ha. destruct Ha as [Hc Ha]. rewrite Hc, (IH _ Ha Hb). reflexivity.
+Qed.
+
+Lemma strip_dots_spec : forall l k d, strip_dots l = (k, d) -> l = k ++ d /\ forallb (fun c => c =? 46) d = true.
+Proof.
+  induction l as [|c l IH]; intros k d H; simpl in H.
+  - inversion H; subst. split; reflexivity.
+  - destruct (strip_dots l) as [k' d'] eqn:E. destruct (IH k' d' eq_refl) as [H1 H2]. subst l.
+    destruct k' as [|x k'].
+    + destruct (c =? 46) eqn:Ec; inversion H; subst; simpl; [rewrite Ec, H2; split; reflexivity|split; [reflexivity|exact H2]].
+    + inversion H; subst. split; [reflexivity|exact H2].
+Qed.
+
+Lemma firstn_len_app : forall (a b : str), firstn (length a) (a ++ b) = a.
+Proof. induction a as [|c a IH]; intro b; simpl; [reflexivity|rewrite IH; reflexivity]. Qed.
+Lemma raw_of_app : forall a b, raw_of (a ++ b) b = a.
+Proof.
+  intros a b. unfold raw_of. rewrite app_length.
+  replace (length a + length b - length b)%nat with (length a) by lia. apply firstn_len_app.
+Qed.
+
+Lemma existsb_app_false : forall (p : N -> bool) a b, existsb p (a ++ b) = false -> existsb p a = false /\ existsb p b = false.
+Proof. intros p a b H. rewrite existsb_app in H. apply orb_false_iff in H. exact H. Qed.
+
+Lemma existsb_false_forall : forall (p : N -> bool) l, existsb p l = false -> forall c, In c l -> p c = false.
+Proof.
+  intros p l H c Hc. destruct (p c) eqn:E; [|reflexivity].
+  assert (existsb p l = true) by (apply existsb_exists; eauto). congruence.
+Qed.
+
+Lemma memN_app : forall x a b, memN x (a ++ b) = memN x a || memN x b.
+Proof. induction a as [|c a IH]; intro b; simpl; [reflexivity|rewrite IH, orb_assoc; reflexivity]. Qed.
+
+Lemma memN_split_first : forall x l, memN x l = true ->
+  exists a b, l = a ++ x :: b /\ forallb (fun c => negb (c =? x)) a = true.
+Proof.
+  induction l as [|c l IH]; intro H; simpl in H; [discriminate|].
+  destruct (c =? x) eqn:E.
+  - apply N.eqb_eq in E. subst. exists [], l. split; reflexivity.
+  - rewrite N.eqb_sym in E. rewrite E in H. simpl in H. destruct (IH H) as [a [b [H1 H2]]]. subst l.
+    exists (c :: a), b. split; [reflexivity|]. simpl. rewrite N.eqb_sym in E. rewrite E, H2. reflexivity.
+Qed.
+
+(* ---- hexadecimal escapes *)
+Lemma is_hex_ranges : forall c, is_hex c = true -> (48 <= c <= 57) \/ (65 <= c <= 70) \/ (97 <= c <= 102).
+Proof.
+  intros c H. unfold is_hex, is_digit, inr in H.
+  apply orb_true_iff in H. destruct H as [H|H]; [apply orb_true_iff in H; destruct H as [H|H]|]; b2p; lia.
+Qed.
+Lemma hexval_bound : forall c, is_hex c = true -> hexval c <= 15.
+Proof.
+  intros c H. apply is_hex_ranges in H. unfold hexval, is_digit, inr.
+  destruct (48 <=? c) eqn:A, (c <=? 57) eqn:B, (65 <=? c) eqn:C, (c <=? 70) eqn:D; simpl; b2p; lia.
+Qed.
+
+Lemma hexn_split : forall k acc l x r, hexn k acc l = Some (x, r) ->
+  exists hs, l = hs ++ r /\ length hs = k /\ forallb is_hex hs = true /\ forall t, hexn k acc (hs ++ t) = Some (x, t).
+Proof.
+  induction k as [|k IH]; intros acc l x r H; simpl in H.
+  - inversion H; subst. exists []. repeat split.
+  - destruct l as [|c l]; [discriminate|]. destruct (is_hex c) eqn:Hc; [|discriminate].
+    destruct (IH _ _ _ _ H) as [hs [H1 [H2 [H3 H4]]]]. subst l.
+    exists (c :: hs). repeat split; [simpl; congruence|simpl; rewrite Hc, H3; reflexivity|].
+    intro t. simpl. rewrite Hc. apply H4.
+Qed.
+
+Lemma hexn4_bound : forall l x r, hexn 4 0 l = Some (x, r) -> x <= 65535.
+Proof.
+  intros l x r H.
+  destruct l as [|a [|b [|c [|d l]]]]; cbn [hexn] in H;
+    repeat match type of H with context [if is_hex ?z then _ else _] => destruct (is_hex z) eqn:? end; try discriminate.
+  assert (Hx : x = 16 * (16 * (16 * (16 * 0 + hexval a) + hexval b) + hexval c) + hexval d) by congruence.
+  repeat match goal with Hh : is_hex ?z = true |- _ => apply hexval_bound in Hh end. lia.
+Qed.
+
+(* characters an IRIREF is spelled with: the plain ones and those of \uXXXX / \UXXXXXXXX *)
+Definition iri_rawc (c : N) : bool := (32 <? c) && negb ((c =? 34) || (c =? 60) || (c =? 62)).
+
+Lemma hex_rawc : forall c, is_hex c = true -> iri_rawc c = true.
+Proof.
+  intros c H. apply is_hex_ranges in H. unfold iri_rawc.
+  apply andb_true_iff. split; [apply N.ltb_lt; lia|].
+  rewrite !eqb_false by lia. reflexivity.
+Qed.
+Lemma plain_rawc : forall c, iri_plain c = true -> iri_rawc c = true /\ (c =? 92) = false /\ (c =? 62) = false.
+Proof.
+  intros c H. destruct (iri_plain_not_delim c H) as [H62 H92].
+  unfold iri_plain in H. apply andb_true_iff in H. destruct H as [H1 H2]. b2p.
+  unfold iri_forbidden in H2. cbn [memN] in H2. b2p.
+  repeat split; try (apply N.eqb_neq; assumption).
+  unfold iri_rawc. apply andb_true_iff. split; [apply N.ltb_lt; lia|].
+  rewrite !eqb_false by assumption. reflexivity.
+Qed.
+
+(* ---- decodeUnicodeEscape, one step *)
+Lemma unq_plain : forall m c r, (c =? 92) = false -> rd_unquote (S m) (c :: r) = oconsv c (rd_unquote m r).
+Proof. intros m c r H. cbn [rd_unquote]. rewrite H. reflexivity. Qed.
+Lemma unq_echar : forall m e r v, rd_echar e = Some v ->
+  rd_unquote (S m) (92 :: e :: r) = oconsv v (rd_unquote m r).
+Proof. intros m e r v H. cbn [rd_unquote]. change (92 =? 92) with true. cbv iota. rewrite H. reflexivity. Qed.
+Lemma unq_uchar : forall m e r x r', rd_echar e = None -> rd_uchar (e :: r) = Some (x, r') -> x <= 1114111 ->
+  rd_unquote (S m) (92 :: e :: r) = oconsv x (rd_unquote m r').
+Proof.
+  intros m e r x r' H1 H2 H3. cbn [rd_unquote]. change (92 =? 92) with true. cbv iota.
+  rewrite H1, H2. apply N.leb_le in H3. rewrite H3. reflexivity.
+Qed.
+
+(* a UCHAR the grammar accepts is spelled backslash, u or U, hex digits, and rdflib's reader resolves it alike *)
+Lemma uchar_spec : forall l x r, uchar l = Some (x, r) ->
+  exists e hs, l = e :: hs ++ r /\ (e = 117 \/ e = 85) /\ forallb is_hex hs = true /\ x <= 1114111 /\
+               forall t, rd_uchar (e :: hs ++ t) = Some (x, t).
+Proof.
+  intros l x r H. destruct l as [|e l]; [discriminate|]. unfold uchar in H.
+  destruct (e =? 117) eqn:E1.
+  - apply N.eqb_eq in E1. subst e. pose proof (hexn4_bound _ _ _ H) as Hb.
+    destruct (hexn_split _ _ _ _ _ H) as [hs [H1 [_ [H3 H4]]]]. subst l.
+    exists 117, hs. split; [reflexivity|]. split; [left; reflexivity|]. split; [exact H3|]. split; [lia|].
+    intro t. unfold rd_uchar. change (117 =? 117) with true. apply H4.
+  - destruct (e =? 85) eqn:E2; [|discriminate]. apply N.eqb_eq in E2. subst e.
+    destruct (hexn 8 0 l) as [[v r']|] eqn:Eh; [|discriminate].
+    destruct (v <=? 1114111) eqn:Ev; [|discriminate]. inversion H; subst. apply N.leb_le in Ev.
+    destruct (hexn_split _ _ _ _ _ Eh) as [hs [H1 [_ [H3 H4]]]]. subst l.
+    exists 85, hs. split; [reflexivity|]. split; [right; reflexivity|]. split; [exact H3|]. split; [exact Ev|].
+    intro t. unfold rd_uchar. change (85 =? 117) with false. change (85 =? 85) with true. apply H4.
+Qed.
+
+Lemma rd_echar_u : rd_echar 117 = None /\ rd_echar 85 = None.
+Proof. split; reflexivity. Qed.
+
+(* ---- IRIREF *)
+Lemma forallb_app_intro : forall (p : N -> bool) a b, forallb p a = true -> forallb p b = true -> forallb p (a ++ b) = true.
+Proof. intros. rewrite forallb_app, H, H0. reflexivity. Qed.
+
+Lemma iri_body_raw : forall n l v r, iri_body n l = Some (v, r) ->
+  exists raw, l = raw ++ 62 :: r /\ forallb iri_rawc raw = true /\
+    (forall m, (length raw <= m)%nat -> rd_unquote m raw = Some v) /\
+    match raw with [] => v = [] | c :: _ => c = 92 \/ exists v', v = c :: v' end.
+Proof.
+  induction n as [|n IH]; intros l v r H; [discriminate|].
+  cbn [iri_body] in H. destruct l as [|c l]; [discriminate|].
+  destruct (c =? 62) eqn:E62.
+  { apply N.eqb_eq in E62. subst c. inversion H; subst. exists []. repeat split.
+    intros m _. destruct m; reflexivity. }
+  destruct (c =? 92) eqn:E92.
+  { apply N.eqb_eq in E92. subst c.
+    destruct (uchar l) as [[x r']|] eqn:Eu; [|discriminate].
+    destruct (iri_body n r') as [[v' r'']|] eqn:Eb; [|discriminate]. cbn [consv] in H. inversion H; subst.
+    destruct (IH _ _ _ Eb) as [raw' [H1 [H2 [H3 _]]]]. subst r'.
+    destruct (uchar_spec _ _ _ Eu) as [e [hs [L1 [L2 [L3 [L4 L5]]]]]]. subst l.
+    exists (92 :: e :: hs ++ raw'). split; [|split; [|split]].
+    - cbn [app]. rewrite <- app_assoc. reflexivity.
+    - cbn [forallb]. apply andb_true_iff. split; [reflexivity|]. apply andb_true_iff. split.
+      + destruct L2; subst; reflexivity.
+      + apply forallb_app_intro; [|exact H2]. apply forallb_forall. intros z Hz. apply hex_rawc.
+        rewrite forallb_forall in L3. auto.
+    - intros m Hm. destruct m; [simpl in Hm; lia|].
+      rewrite (unq_uchar m e (hs ++ raw') x raw'); [|destruct L2; subst; reflexivity|apply L5|exact L4].
+      rewrite H3; [reflexivity|]. simpl in Hm. rewrite app_length in Hm. lia.
+    - left. reflexivity. }
+  destruct (iri_plain c) eqn:Ep; [|discriminate].
+  destruct (iri_body n l) as [[v' r'']|] eqn:Eb; [|discriminate]. cbn [consv] in H. inversion H; subst.
+  destruct (IH _ _ _ Eb) as [raw' [H1 [H2 [H3 _]]]]. subst l.
+  destruct (plain_rawc c Ep) as [P1 [P2 P3]].
+  exists (c :: raw'). split; [reflexivity|split; [|split]].
+  - cbn [forallb]. rewrite P1, H2. reflexivity.
+  - intros m Hm. destruct m; [simpl in Hm; lia|]. rewrite unq_plain by exact E92.
+    rewrite H3; [reflexivity|simpl in Hm; lia].
+  - right. eauto.
+Qed.
+
+Lemma uri_tail_rawc : forall c, iri_rawc c = true -> wide_space c = false -> uri_tail_char c = true.
+Proof.
+  intros c H W. unfold iri_rawc in H. apply andb_true_iff in H. destruct H as [Hlt Hne].
+  apply negb_true_iff in Hne. unfold wide_space in W. unfold uri_tail_char.
+  assert (Hs : py_re_space c = false).
+  { destruct (py_re_space c); [|reflexivity]. simpl in W. b2p. lia. }
+  rewrite Hs. cbn [orb]. rewrite Hne. reflexivity.
+Qed.
+
+Lemma rd_uriref_raw_ok : forall raw r,
+  forallb iri_rawc raw = true -> existsb wide_space raw = false -> memN 58 raw = true ->
+  match raw with c :: _ => (c =? 58) = false | [] => False end ->
+  rd_uriref_raw (60 :: raw ++ 62 :: r) = Some (raw, r).
+Proof.
+  intros raw r Hc Hw Hm Hh.
+  destruct (memN_split_first 58 raw Hm) as [pre [post [E Hpre]]]. subst raw.
+  destruct pre as [|p0 pre]; [cbn [app] in Hh; rewrite N.eqb_refl in Hh; discriminate|].
+  unfold rd_uriref_raw. change (60 =? 60) with true. cbv iota.
+  rewrite <- app_assoc. cbn [app].
+  change (p0 :: pre ++ 58 :: post ++ 62 :: r) with ((p0 :: pre) ++ 58 :: (post ++ 62 :: r)).
+  rewrite (span_app (fun c => negb (c =? 58)) (p0 :: pre) 58 (post ++ 62 :: r) Hpre) by reflexivity.
+  rewrite forallb_app in Hc. apply andb_true_iff in Hc. destruct Hc as [_ Hc]. cbn [forallb] in Hc.
+  apply andb_true_iff in Hc. destruct Hc as [_ Hc].
+  apply existsb_app_false in Hw. destruct Hw as [_ Hw]. cbn [existsb] in Hw. apply orb_false_iff in Hw. destruct Hw as [_ Hw].
+  assert (Hpost : forallb uri_tail_char post = true).
+  { apply forallb_forall. intros c Hin. apply uri_tail_rawc.
+    - rewrite forallb_forall in Hc. auto.
+    - eapply existsb_false_forall; eauto. }
+  rewrite (span_app uri_tail_char post 62 r Hpost).
+  - change (62 =? 62) with true. cbv iota. reflexivity.
+  - unfold uri_tail_char. change (62 =? 62) with true. rewrite !orb_true_r. reflexivity.
+Qed.
+
+(* an IRIREF of the grammar is read by the reader's regular expression + unquote to the same IRI *)
+Lemma p_iriref_rd : forall l v r, p_iriref l = Some (v, r) -> iri_raw_kf (raw_of l r) = 0 ->
+  exists raw, rd_uriref_raw l = Some (raw, r) /\ unquote raw = Some v.
+Proof.
+  intros l v r H K. destruct l as [|c l]; [discriminate|]. unfold p_iriref in H.
+  destruct (c =? 60) eqn:E; [|discriminate]. apply N.eqb_eq in E. subst c.
+  unfold p_iri_tail in H. destruct (iri_body (S (length l)) l) as [[v' r']|] eqn:Eb; [|discriminate].
+  destruct (has_scheme v') eqn:Hs; [|discriminate]. inversion H; subst.
+  destruct (iri_body_raw _ _ _ _ Eb) as [raw [H1 [H2 [H3 H4]]]]. subst l.
+  replace (60 :: raw ++ 62 :: r) with ((60 :: raw ++ [62]) ++ r) in K by (cbn [app]; rewrite <- app_assoc; reflexivity).
+  rewrite raw_of_app in K. unfold iri_raw_kf in K.
+  destruct (existsb wide_space (60 :: raw ++ [62])) eqn:Ew; [discriminate|].
+  destruct (memN 58 (60 :: raw ++ [62])) eqn:Em; [|discriminate].
+  cbn [existsb] in Ew. apply orb_false_iff in Ew. destruct Ew as [_ Ew]. apply existsb_app_false in Ew. destruct Ew as [Ew _].
+  cbn [memN] in Em. change (58 =? 60) with false in Em. cbn [orb] in Em. rewrite memN_app in Em.
+  cbn [memN] in Em. change (58 =? 62) with false in Em. cbn [orb] in Em. rewrite orb_false_r in Em.
+  exists raw. split.
+  - apply rd_uriref_raw_ok; auto.
+    destruct raw as [|c0 raw']; [subst v; discriminate|].
+    destruct H4 as [H4|[v' H4]]; [subst; reflexivity|]. subst v.
+    unfold has_scheme in Hs. apply andb_true_iff in Hs. destruct Hs as [Ha _].
+    unfold is_alpha, inr in Ha. apply N.eqb_neq. apply orb_true_iff in Ha. destruct Ha; b2p; lia.
+  - unfold unquote. apply H3. lia.
+Qed.
+
+(* ---- BLANK_NODE_LABEL: on ASCII the reader's two character classes are PN_CHARS_U|[0-9] and PN_CHARS|'.' *)
+Lemma inr_big : forall lo hi c, c <= 127 -> 127 < lo -> inr lo hi c = false.
+Proof. intros lo hi c H1 H2. unfold inr. destruct (lo <=? c) eqn:E; [b2p; lia|reflexivity]. Qed.
+
+Ltac kill_ranges c :=
+  repeat match goal with
+  | |- context [inr ?lo ?hi c] => rewrite (inr_big lo hi c) by lia
+  end.
+
+Lemma ascii_first : forall c, c <= 127 -> (pn_chars_u c || is_digit c) = nid1 c.
+Proof.
+  intros c H. unfold pn_chars_u, pn_chars_base, nid1, is_alnum. kill_ranges c.
+  destruct (is_alpha c), (is_digit c), (c =? 95), (c =? 58); reflexivity.
+Qed.
+Lemma ascii_label : forall c, c <= 127 -> label_char c = nid2 c.
+Proof.
+  intros c H. unfold label_char, pn_chars, pn_chars_u, pn_chars_base, nid2, nid1, is_alnum. kill_ranges c.
+  rewrite (eqb_false c 183) by lia.
+  destruct (is_alpha c), (is_digit c), (c =? 95), (c =? 58), (c =? 45), (c =? 46); reflexivity.
+Qed.
+Lemma nid2_ascii : forall c, nid2 c = true -> c <= 127.
+Proof.
+  intros c H. unfold nid2, nid1, is_alnum, is_alpha, is_digit, inr in H.
+  repeat (apply orb_true_iff in H; destruct H as [H|H]); b2p; lia.
+Qed.
+
+Lemma p_bnode_rd : forall l lab r, p_bnode l = Some (lab, r) ->
+  existsb (fun c => 127 <? c) (raw_of l r) = false -> rd_nodeid l = Some (lab, r).
+Proof.
+  intros l lab r H K. destruct l as [|u [|k [|c l]]]; try discriminate. unfold p_bnode in H.
+  destruct ((u =? 95) && (k =? 58) && (pn_chars_u c || is_digit c)) eqn:E; [|discriminate].
+  destruct (span label_char l) as [run rest] eqn:Es. destruct (strip_dots run) as [kk d] eqn:Ed.
+  inversion H; subst lab r. clear H.
+  destruct (span_spec _ _ _ _ Es) as [S1 [S2 S3]]. destruct (strip_dots_spec _ _ _ Ed) as [D1 D2]. subst l run.
+  replace (u :: k :: c :: (kk ++ d) ++ rest) with ((u :: k :: c :: kk) ++ (d ++ rest)) in K
+    by (cbn [app]; rewrite <- app_assoc; reflexivity).
+  rewrite raw_of_app in K. cbn [existsb] in K.
+  apply orb_false_iff in K. destruct K as [_ K]. apply orb_false_iff in K. destruct K as [_ K].
+  apply orb_false_iff in K. destruct K as [Kc Kk]. apply N.ltb_ge in Kc.
+  assert (Hrun : forall z, In z (kk ++ d) -> z <= 127).
+  { intros z Hz. apply in_app_or in Hz. destruct Hz as [Hz|Hz].
+    - pose proof (existsb_false_forall _ _ Kk z Hz) as Q. simpl in Q. apply N.ltb_ge in Q. exact Q.
+    - rewrite forallb_forall in D2. specialize (D2 z Hz). b2p. lia. }
+  unfold rd_nodeid. apply andb_true_iff in E. destruct E as [E E3]. rewrite E.
+  rewrite <- (ascii_first c Kc), E3. cbn [andb].
+  assert (Hs : span nid2 ((kk ++ d) ++ rest) = (kk ++ d, rest)).
+  { apply span_app2'.
+    - apply forallb_forall. intros z Hz. rewrite <- ascii_label by (apply Hrun; exact Hz).
+      rewrite forallb_forall in S2. auto.
+    - destruct rest as [|h rest']; [exact I|].
+      destruct (nid2 h) eqn:Eh; [|reflexivity].
+      pose proof (nid2_ascii h Eh) as Ha. rewrite <- ascii_label in Eh by exact Ha. congruence. }
+  rewrite Hs, Ed. reflexivity.
+Qed.
+
+(* ---- STRING_LITERAL_QUOTE *)
+Definition pre_opt (hs : str) (x : option (str * str)) : option (str * str) :=
+  match x with Some (v, r) => Some (hs ++ v, r) | None => None end.
+
+Lemma hex_not_delim : forall c, is_hex c = true -> (c =? 34) = false /\ (c =? 92) = false.
+Proof. intros c H. apply is_hex_ranges in H. split; apply N.eqb_neq; lia. Qed.
+
+Lemma lit_scan_hex_prefix : forall hs X m, forallb is_hex hs = true ->
+  lit_scan (length hs + m) (hs ++ X) = pre_opt hs (lit_scan m X).
+Proof.
+  induction hs as [|h hs IH]; intros X m H.
+  - simpl. destruct (lit_scan m X) as [[v r]|]; reflexivity.
+  - cbn [forallb] in H. apply andb_true_iff in H. destruct H as [Hh H].
+    destruct (hex_not_delim h Hh) as [E1 E2].
+    cbn [length app Nat.add lit_scan]. rewrite E1, E2. rewrite (IH X m H).
+    destruct (lit_scan m X) as [[v r]|]; reflexivity.
+Qed.
+
+Lemma echar_not_10 : forall e v, echar e = Some v -> (e =? 10) = false.
+Proof.
+  intros e v H. destruct (e =? 10) eqn:E; [|reflexivity]. apply N.eqb_eq in E. subst e. discriminate.
+Qed.
+
+Lemma str_body_raw : forall n l lex r1, str_body n l = Some (lex, r1) ->
+  exists raw, l = raw ++ 34 :: r1 /\
+    (forall m, (length l < m)%nat -> lit_scan m l = Some (raw, r1)) /\
+    (forall m, (length raw <= m)%nat -> rd_unquote m raw = Some lex).
+Proof.
+  induction n as [|n IH]; intros l lex r1 H; [discriminate|].
+  cbn [str_body] in H. destruct l as [|c l]; [discriminate|].
+  destruct (c =? 34) eqn:E34.
+  { apply N.eqb_eq in E34. subst c. inversion H; subst. exists []. repeat split.
+    - intros m Hm. destruct m; [inversion Hm|]. reflexivity.
+    - intros m _. destruct m; reflexivity. }
+  destruct (c =? 92) eqn:E92.
+  { apply N.eqb_eq in E92. subst c. destruct l as [|e l]; [discriminate|].
+    destruct (echar e) as [x|] eqn:Ee.
+    - destruct (str_body n l) as [[v' r']|] eqn:Eb; [|discriminate]. cbn [consv] in H. inversion H; subst.
+      destruct (IH _ _ _ Eb) as [raw' [H1 [H2 H3]]]. subst l.
+      exists (92 :: e :: raw'). split; [reflexivity|split].
+      + intros m Hm. destruct m; [inversion Hm|]. cbn [lit_scan]. change (92 =? 34) with false. change (92 =? 92) with true. cbv iota.
+        rewrite (echar_not_10 e x Ee). rewrite H2; [reflexivity|simpl in Hm; lia].
+      + intros m Hm. destruct m; [simpl in Hm; lia|].
+        rewrite (unq_echar m e raw' x) by (rewrite rd_echar_eq; exact Ee).
+        rewrite H3; [reflexivity|simpl in Hm; lia].
+    - destruct (uchar (e :: l)) as [[x r']|] eqn:Eu; [|discriminate].
+      destruct (str_body n r') as [[v' r'']|] eqn:Eb; [|discriminate]. cbn [consv] in H. inversion H; subst.
+      destruct (IH _ _ _ Eb) as [raw' [H1 [H2 H3]]]. subst r'.
+      destruct (uchar_spec _ _ _ Eu) as [e' [hs [L1 [L2 [L3 [L4 L5]]]]]]. inversion L1; subst e' l. clear L1.
+      exists (92 :: e :: hs ++ raw'). split; [|split].
+      + cbn [app]. rewrite <- app_assoc. reflexivity.
+      + intros m Hm. destruct m; [inversion Hm|]. cbn [lit_scan]. change (92 =? 34) with false. change (92 =? 92) with true. cbv iota.
+        assert (E10 : (e =? 10) = false) by (destruct L2; subst; reflexivity). rewrite E10.
+        simpl in Hm. rewrite app_length in Hm.
+        replace m with (length hs + (m - length hs))%nat by lia.
+        rewrite (lit_scan_hex_prefix hs (raw' ++ 34 :: r1) _ L3).
+        rewrite H2 by lia. cbn [pre_opt]. reflexivity.
+      + intros m Hm. destruct m; [simpl in Hm; lia|].
+        rewrite (unq_uchar m e (hs ++ raw') x raw'); [|rewrite rd_echar_eq; exact Ee|apply L5|exact L4].
+        rewrite H3; [reflexivity|]. simpl in Hm. rewrite app_length in Hm. lia. }
+  destruct (is_eol c) eqn:Eeol; [discriminate|].
+  destruct (str_body n l) as [[v' r']|] eqn:Eb; [|discriminate]. cbn [consv] in H. inversion H; subst.
+  destruct (IH _ _ _ Eb) as [raw' [H1 [H2 H3]]]. subst l.
+  exists (c :: raw'). split; [reflexivity|split].
+  - intros m Hm. destruct m; [inversion Hm|]. cbn [lit_scan]. rewrite E34, E92.
+    rewrite H2; [reflexivity|simpl in Hm; lia].
+  - intros m Hm. destruct m; [simpl in Hm; lia|]. rewrite unq_plain by exact E92.
+    rewrite H3; [reflexivity|simpl in Hm; lia].
+Qed.
+
+(* the datatype IRIREF of a literal is the only part of it a trigger looks at *)
+Lemma p_literal_rd : forall r t r3, p_literal_tail r = Some (t, r3) -> object_kf (34 :: r) = 0 ->
+  rd_literal (34 :: r) = Some (t, r3).
+Proof.
+  intros r t r3 H K. unfold p_literal_tail in H. unfold object_kf in K. cbn [starts_with tl] in K.
+  change (34 =? 34) with true in K. cbv iota in K.
+  destruct (str_body (S (length r)) r) as [[lex r1]|] eqn:Eb; [|discriminate].
+  destruct (str_body_raw _ _ _ _ Eb) as [raw [H1 [H2 H3]]].
+  unfold rd_literal. change (34 =? 34) with true. cbv iota. rewrite (H2 (S (length r))) by lia.
+  assert (Hu : unquote raw = Some lex) by (unfold unquote; apply H3; lia). rewrite Hu.
+  unfold p_lit_suffix in H. unfold rd_litinfo.
+  destruct r1 as [|c r2]; [inversion H; reflexivity|].
+  destruct (c =? 64) eqn:E64.
+  { destruct (p_langtag r2) as [[lg r4]|]; [|discriminate]. inversion H; reflexivity. }
+  destruct ((c =? 94) && starts_with 94 r2) eqn:E94; [|inversion H; reflexivity].
+  destruct (p_iriref (tl r2)) as [[d r4]|] eqn:Ei; [|discriminate]. inversion H; subst. clear H.
+  apply andb_true_iff in E94. destruct E94 as [Ec Er]. apply N.eqb_eq in Ec. subst c.
+  cbn [starts_with tl] in K. change (94 =? 94) with true in K. rewrite Er in K. cbn [andb] in K.
+  unfold node_kf in K.
+  assert (St : starts_with 60 (tl r2) = true).
+  { destruct (tl r2) as [|z zs]; [discriminate|]. unfold p_iriref in Ei. cbn [starts_with].
+    destruct (z =? 60); [reflexivity|discriminate]. }
+  rewrite St, Ei in K.
+  destruct (p_iriref_rd _ _ _ Ei K) as [rawd [R1 R2]]. rewrite R1, R2. reflexivity.
+Qed.
+
+(* ---- subject / predicate / object / graph label *)
+Lemma starts_with_cons : forall k l, starts_with k l = true -> exists r, l = k :: r.
+Proof. intros k [|c r] H; [discriminate|]. simpl in H. apply N.eqb_eq in H. subst. eauto. Qed.
+
+Lemma p_iriref_starts : forall l v r, p_iriref l = Some (v, r) -> starts_with 60 l = true.
+Proof. intros [|c l] v r H; [discriminate|]. unfold p_iriref in H. simpl. destruct (c =? 60); [reflexivity|discriminate]. Qed.
+
+Lemma rd_uriref_of : forall l v r, p_iriref l = Some (v, r) -> node_kf l = 0 -> rd_uriref l = Some (v, r).
+Proof.
+  intros l v r H K. unfold node_kf in K. rewrite (p_iriref_starts _ _ _ H), H in K.
+  destruct (p_iriref_rd _ _ _ H K) as [raw [R1 R2]]. unfold rd_uriref. rewrite R1, R2. reflexivity.
+Qed.
+
+Lemma p_subject_rd : forall l t r, p_subject l = Some (t, r) -> node_kf l = 0 -> rd_node l = Some (t, r).
+Proof.
+  intros l t r H K. unfold p_subject in H. unfold rd_node.
+  destruct (starts_with 60 l) eqn:E60.
+  - destruct (p_iriref l) as [[v r']|] eqn:Ei; [|discriminate]. cbn [omap] in H. inversion H; subst.
+    rewrite (rd_uriref_of _ _ _ Ei K). reflexivity.
+  - destruct (starts_with 95 l) eqn:E95; [|discriminate].
+    destruct (p_bnode l) as [[v r']|] eqn:Eb; [|discriminate]. cbn [omap] in H. inversion H; subst.
+    unfold node_kf in K. rewrite E60, Eb in K.
+    destruct (existsb (fun c => 127 <? c) (raw_of l r)) eqn:Ex; [discriminate|].
+    rewrite (p_bnode_rd _ _ _ Eb Ex). reflexivity.
+Qed.
+
+Lemma p_subject_starts : forall l t r, p_subject l = Some (t, r) ->
+  (starts_with 60 l || starts_with 95 l) = true /\ starts_with 34 l = false /\ starts_with 35 l = false /\ starts_with 46 l = false.
+Proof.
+  intros l t r H. unfold p_subject in H.
+  destruct (starts_with 60 l) eqn:E60.
+  - destruct (starts_with_cons _ _ E60) as [x E]. subst. repeat split.
+  - destruct (starts_with 95 l) eqn:E95; [|discriminate].
+    destruct (starts_with_cons _ _ E95) as [x E]. subst. repeat split.
+Qed.
+
+Lemma p_object_rd : forall l t r, p_object l = Some (t, r) -> object_kf l = 0 -> rd_object l = Some (t, r).
+Proof.
+  intros l t r H K. unfold p_object in H. unfold rd_object.
+  destruct (starts_with 34 l) eqn:E34.
+  - destruct (starts_with_cons _ _ E34) as [x E]. subst l. cbn [tl] in H.
+    change (starts_with 60 (34 :: x)) with false. change (starts_with 95 (34 :: x)) with false. cbn [orb].
+    change (starts_with 34 (34 :: x)) with true. cbv iota. apply p_literal_rd; assumption.
+  - destruct (p_subject_starts _ _ _ H) as [S1 _]. rewrite S1.
+    unfold object_kf in K. rewrite E34 in K. apply p_subject_rd; assumption.
+Qed.
+
+(* ---- the end of the statement *)
+Lemma skip_ws_idem : forall l, skip_ws (skip_ws l) = skip_ws l.
+Proof.
+  induction l as [|c l IH]; [reflexivity|]. simpl. destruct (is_ws c) eqn:E; [exact IH|]. simpl. rewrite E. reflexivity.
+Qed.
+
+Lemma drop_to_eol_nil : forall l, drop_to_eol l = [] -> existsb (fun x => x =? 10) l = false.
+Proof.
+  induction l as [|c l IH]; intro H; [reflexivity|]. simpl in H.
+  destruct (is_eol c) eqn:E; [discriminate|]. simpl. rewrite (IH H).
+  unfold is_eol in E. apply orb_false_iff in E. destruct E as [E _]. rewrite E. reflexivity.
+Qed.
+
+Lemma rd_tail_of : forall r r5, p_end r = Some r5 -> skip_comment r5 = [] -> rd_tail r = true.
+Proof.
+  intros r r5 H C. unfold p_end in H. unfold rd_tail.
+  destruct (skip_ws r) as [|c r'] eqn:E; [discriminate|].
+  destruct (c =? 46) eqn:Ec; [|discriminate]. inversion H; subst r'. cbn [andb].
+  unfold skip_comment in C. destruct (skip_ws r5) as [|c' r''] eqn:E5; [reflexivity|].
+  destruct (starts_with 35 (c' :: r'')) eqn:Es; [|discriminate].
+  cbn [starts_with] in Es. rewrite Es. cbn [andb].
+  cbn [drop_to_eol] in C. destruct (is_eol c'); [discriminate|].
+  rewrite (drop_to_eol_nil _ C). reflexivity.
+Qed.
+
+(* ---- the statement *)
+Theorem reads_legal_statement : forall nq l q rest,
+  p_statement nq l = Some (q, rest) -> skip_comment rest = [] -> line_kf nq l = 0 ->
+  rd_parseline nq l = Some (Some q).
+Proof.
+  intros nq l q rest H C K. unfold p_statement in H. unfold line_kf in K. cbv zeta in K.
+  destruct (p_subject (skip_ws l)) as [[s r1]|] eqn:Es; [|discriminate].
+  destruct (p_predicate (skip_ws r1)) as [[p r2]|] eqn:Ep; [|discriminate].
+  destruct (p_object (skip_ws r2)) as [[o r3]|] eqn:Eo; [|discriminate].
+  pose proof (first_nz_zero _ K) as Z.
+  assert (K1 : node_kf (skip_ws l) = 0) by (apply Z; simpl; tauto).
+  assert (K2 : node_kf (skip_ws r1) = 0) by (apply Z; simpl; tauto).
+  assert (K3 : object_kf (skip_ws r2) = 0) by (apply Z; simpl; tauto).
+  assert (K4 : (if nq then node_kf (skip_ws r3) else 0) = 0) by (apply Z; simpl; tauto).
+  unfold rd_parseline. cbv zeta.
+  destruct (p_subject_starts _ _ _ Es) as [_ [_ [S35 _]]].
+  destruct (skip_ws l) as [|c0 l0] eqn:El; [discriminate|].
+  cbn [starts_with] in S35. rewrite S35.
+  rewrite (p_subject_rd _ _ _ Es K1). unfold eat_sep.
+  unfold p_predicate in Ep. destruct (p_iriref (skip_ws r1)) as [[pv r2']|] eqn:Ei; [|discriminate].
+  cbn [omap] in Ep. inversion Ep; subst p r2'. clear Ep.
+  rewrite (p_iriref_starts _ _ _ Ei). rewrite (rd_uriref_of _ _ _ Ei K2). cbn [omap].
+  rewrite (p_object_rd _ _ _ Eo K3).
+  destruct (p_end r3) as [r5|] eqn:Ee.
+  - inversion H; subst q rest. clear H.
+    pose proof (rd_tail_of _ _ Ee C) as T.
+    destruct nq; [|rewrite T; reflexivity].
+    unfold p_end in Ee. destruct (skip_ws r3) as [|c3 r3'] eqn:E3; [discriminate|].
+    destruct (c3 =? 46) eqn:E46; [|discriminate]. apply N.eqb_eq in E46. subst c3.
+    change (starts_with 60 (46 :: r3')) with false. change (starts_with 95 (46 :: r3')) with false. cbn [orb].
+    assert (T' : rd_tail (46 :: r3') = true).
+    { unfold rd_tail in *. rewrite E3 in T. rewrite <- E3, skip_ws_idem, E3. exact T. }
+    rewrite T'. reflexivity.
+  - destruct nq; [|discriminate].
+    destruct (p_subject (skip_ws r3)) as [[g r5]|] eqn:Eg; [|discriminate].
+    destruct (p_end r5) as [r6|] eqn:Ee6; [|discriminate]. inversion H; subst q rest. clear H.
+    destruct (p_subject_starts _ _ _ Eg) as [G1 _]. rewrite G1.
+    rewrite (p_subject_rd _ _ _ Eg K4). rewrite (rd_tail_of _ _ Ee6 C). reflexivity.
+Qed.
